@@ -150,6 +150,13 @@ func getKeystoreFromJson(keysJson []byte) (*Keystore, error) {
 
 // NOTE: this func will leave the masterKeyPriv derived
 func (a *AddrManager) checkPassword(passphrase []byte) error {
+	// Every private passphrase that was ever set passed ValidatePassphrase.
+	// A candidate that does not is wrong - also when it would derive the
+	// right key: the key derivation's HMAC pads short keys with zero bytes,
+	// so the right passphrase followed by NUL bytes yields the same key.
+	if !ValidatePassphrase(passphrase) {
+		return ErrInvalidPassphrase
+	}
 	if a.unlocked {
 		// copy: appending an empty passphrase to the salt array's slice
 		// returns that slice itself, and the buffer is zeroed below
@@ -191,6 +198,9 @@ func (a *AddrManager) safelyCheckPassword(privPass []byte) error {
 }
 
 func unmarshalMasterPrivKey(masterPrivKey *snacl.SecretKey, privPass []byte, masterPrivParams []byte) error {
+	if !ValidatePassphrase(privPass) {
+		return ErrInvalidPassphrase
+	}
 	err := masterPrivKey.Unmarshal(masterPrivParams)
 	if err != nil {
 		return err
